@@ -74,6 +74,10 @@ variant that only serves to state the decidable input class `SegmentAligned`.
 * `C14_first_match_wins`: sibling lists — the first matching definition in declaration order wins, in
   every version of the code.
 * `C14_build_then_match`: full for `SimpleF` segment lists.
+* `C14_ssr_mode_path_independent`, `C14_ssr_mode_is_first_strictest` (`.ssr_mode(..)` on routes at every
+  level, `RouteM` / `genM`): the generated table's segment lists are those of the mode-free tree and every
+  entry's methods are `{Get}` whatever the modes; an entry's mode is the first strictest mode of its chain
+  (ancestor kept on ties, two `Static` included), its regeneration fns are the chain's in order.
 -/
 namespace Leptos.Router
 
